@@ -38,6 +38,52 @@ def _is_self_attr(node, attr=None):
             and (attr is None or node.attr == attr))
 
 
+def _is_lock_call(st, method):
+    """statement `self._lock.<method>()` with no arguments"""
+    return (isinstance(st, ast.Expr) and isinstance(st.value, ast.Call) and not st.value.args and not st.value.keywords
+            and isinstance(st.value.func, ast.Attribute) and st.value.func.attr == method
+            and _is_self_attr(st.value.func.value, LOCKATTR))
+
+
+def normalise_lock_idiom(tree):
+    """`self._lock.acquire(); try: BODY [except …] finally: self._lock.release()` IS `with self._lock: BODY`: the pair of
+    statements is rewritten into the `with` form (in place, every block of the tree) before the lock analysis and the
+    translation look at it, so this behaviour-preserving way of writing a region is not refused.  Only the exact idiom is
+    rewritten: acquire() immediately followed by a `try` whose `finally` is exactly the release(); anything else (acquire
+    without try/finally, release somewhere else, conditional acquire) is left as it is and fails closed as before."""
+    def fix(stmts):
+        out, i = [], 0
+        while i < len(stmts):
+            st = stmts[i]
+            nxt = stmts[i + 1] if i + 1 < len(stmts) else None
+            if (_is_lock_call(st, "acquire") and isinstance(nxt, ast.Try) and len(nxt.finalbody) == 1
+                    and _is_lock_call(nxt.finalbody[0], "release")):
+                if nxt.handlers or nxt.orelse:
+                    inner = [ast.copy_location(ast.Try(body=nxt.body, handlers=nxt.handlers, orelse=nxt.orelse, finalbody=[]), nxt)]
+                else:
+                    inner = nxt.body
+                ctx = ast.copy_location(ast.Attribute(value=ast.copy_location(ast.Name(id="self", ctx=ast.Load()), st),
+                                                      attr=LOCKATTR, ctx=ast.Load()), st)
+                w = ast.copy_location(ast.With(items=[ast.withitem(context_expr=ctx, optional_vars=None)], body=inner), st)
+                out.append(w)
+                i += 2
+                continue
+            out.append(st)
+            i += 1
+        return out
+
+    for node in ast.walk(tree):
+        for field in ("body", "orelse", "finalbody"):
+            v = getattr(node, field, None)
+            if isinstance(v, list) and v and isinstance(v[0], ast.stmt):
+                setattr(node, field, fix(v))
+        if isinstance(node, ast.Try):
+            for h in node.handlers:
+                h.body = fix(h.body)
+    ast.fix_missing_locations(tree)
+    return tree
+
+
 class Shape:
     def __init__(self, src: str):
         self.ok = True
@@ -45,7 +91,7 @@ class Shape:
         self.lock_kind = "unknown"
         self.methods: dict[str, dict] = {}     # name -> {"public", "loops", "items": [("region", [names]) | ("call", name)]}
         try:
-            tree = ast.parse(src)
+            tree = normalise_lock_idiom(ast.parse(src))
         except SyntaxError as e:
             self._bad(f"syntax error: {e}")
             return
